@@ -33,6 +33,46 @@ def seg_path_fields(P):
     return [f[0] for f in adt["variants"][0]["fields"] if f[1] == "alloc::string::String"]
 
 
+def _table_rows(fn0, sl, fset):
+    """[(SegmentPaths field, key constant, loc)] when fn0 looks its checksums up with the element of a row tuple: the rows are the
+    tuple aggregates of that arity, the key position is the tuple element that flows into `get`."""
+    pos = None
+    for b, t in fn0.calls():
+        if not re.search(r"Map(<[^>]*>|::<[^>]*>)::get$", callee_of(t)) or len(t["args"]) < 2:
+            continue
+        l = op_local(t["args"][1])
+        seen = set()
+        while l is not None and l not in seen:
+            seen.add(l)
+            dd = [d for d in fn0.defs().get(l, []) if d["k"] == "assign"]
+            if len(dd) != 1:
+                break
+            rv = dd[0]["rv"]
+            pl = op_place(rv["a"]) if rv["k"] in ("use", "cast") else (rv.get("place") if rv["k"] == "ref" else None)
+            if pl is None:
+                break
+            digits = [e["f"] for e in pl["p"] if isinstance(e, dict) and "f" in e and str(e["f"]).isdigit()]
+            if pl["p"] and isinstance(pl["p"][-1], dict) and str(pl["p"][-1].get("f", "")).isdigit() and "(" in fn0.local_ty(pl["l"]):
+                pos = int(pl["p"][-1]["f"])
+                break
+            l = pl["l"]
+    if pos is None:
+        return None
+    rows = []
+    for b, i, st in fn0.stmts():
+        if st["k"] == "assign" and st["rv"]["k"] == "agg" and st["rv"].get("ak") == "tuple" and len(st["rv"]["ops"]) > pos and len(st["rv"]["ops"]) >= 3:
+            key = None
+            for c in sl.consts(st["rv"]["ops"][pos]):
+                key = key or const_str(c)
+            fl = set()
+            for j, o in enumerate(st["rv"]["ops"]):
+                if j != pos:
+                    fl |= sl.fields(o) & fset
+            if key and len(fl) == 1:
+                rows.append((list(fl)[0], key, Site(fn0, b, i).loc()))
+    return rows if len(rows) >= 4 else None
+
+
 def r17a(ctx, P):
     rid = "R17.a"
     ctx.rule(rid, "AGREE: for the String fields of SegmentPaths: {fields written through a call reaching Storage::open_write in the "
@@ -134,6 +174,13 @@ def r17a(ctx, P):
                     nm = nm or const_str(c)
         if len(fl) == 1:
             compared[list(fl)[0]] = (nm, Site(ver, b).loc())
+    if len(compared) < 4:
+        # table form: `for (label, file, key, bytes) in [(..), ..] { verify(label, file, checksums.get(key), bytes) }` — the position
+        # of the key inside a row is the tuple element that reaches the `get`; labels in other positions are not keys
+        rows_v = _table_rows(ver, slv, fset)
+        if rows_v is not None:
+            compared = {fl_: (k_, loc_) for fl_, k_, loc_ in rows_v}
+            K_v = {k_ for _, k_, _ in rows_v}
     literal_form = len(hashed) >= 5 and len(compared) >= 4
     if not literal_form:
         hashed = {fl_: ("<set>", loc) for fl_, loc in F_c.items()}
@@ -158,13 +205,20 @@ def r17a(ctx, P):
                 ctx.note("R17.a: collect_checksums and verify_checksums both take their rows from %s: checksum keys agree by construction" % tf.short)
     # (4) removed
     removed = {}
-    for g in [cl] + P.closures_of(cl):
+    # cleanup_segments itself, its closures, and private helpers of the same file it calls (a per-segment `remove_files` helper)
+    cl_scope = [cl] + P.closures_of(cl)
+    for q_ in sorted(P.reach(cl.path)):
+        h_ = P.fns.get(q_)
+        if h_ is not None and h_.file == cl.file and h_.vis != "Public" and h_ not in cl_scope:
+            cl_scope.append(h_)
+            cl_scope += [c_ for c_ in P.closures_of(h_) if c_ not in cl_scope]
+    for g in cl_scope:
         for b, i, s in g.stmts():
             if s["k"] == "assign" and s["rv"]["k"] == "ref":
                 fl = set(place_fields(s["rv"]["place"])) & fset
                 for x in fl:
                     removed.setdefault(x, Site(g, b, i).loc())
-    has_remove = any(t["callee"] == N.S_REMOVE for g in [cl] + P.closures_of(cl) for b, t in g.calls())
+    has_remove = any(t["callee"] == N.S_REMOVE for g in cl_scope for b, t in g.calls())
     ctx.floor(rid, min(len(written), len(hashed), len(compared), len(removed)), 5, "SegmentPaths fields bound in each of the four places")
     for fl in fields:
         parts = {"written": fl in written, "hashed": fl in hashed, "compared": fl in compared, "removed": fl in removed and has_remove}
